@@ -122,6 +122,9 @@ class Consumer(Agent):
         if self.expect is not None:
             return len(self.got) >= self.expect
         # quiet = no handshake anywhere in the bench (accept or delivery) for `quiet` cycles
+        # and only once the literal ready pattern is exhausted (cooperative tail reached)
+        if self.now < len(self.pattern) or self.hold:
+            return False
         return self.bench.clocks.ticks - self.bench.last_event >= self.quiet
 
     def step(self, v, t, w):
